@@ -303,17 +303,24 @@ fn graph_case(rng: &mut Rng, rep: &mut Report, case: u64, bases: &Bases, copies:
 
 const OBSERVED_ONLY: &[&str] = &["observe.diff_name_without_hash", "observe.split_version_shares_a_half_with_a_plain_version", "observe.two_split_versions_share_a_half"];
 
-fn observed_only(g: &VGraph, kind: &'static str, rng: &mut Rng) -> Vec<FileSpec> {
+/// Shapes the statement does not list among the malformed ones: what the loader does with them is recorded, not judged
+/// (a panic still is). Returns the files and the extra names to look up.
+fn observed_only(g: &VGraph, kind: &'static str, rng: &mut Rng) -> (Vec<FileSpec>, Vec<String>) {
     let mut files = g.files(rng);
     let bad = |name: String| FileSpec { name, content: "tiny\t2\t0\n".into(), kind: graphgen::FileKind::Bad };
-    let k0 = g.nodes[0].keys[0].clone();
     match kind {
-        "observe.diff_name_without_hash" => files.push(bad(format!("{}.tinydiff", rng.pick(&["1.0-1.1", "orphan", "a~b"])))),
-        "observe.split_version_shares_a_half_with_a_plain_version" => files.push(bad(format!("{}#{}~server-zz.tinydiff", g.nodes[0].name, g.nodes.last().unwrap().keys[0]))),
-        _ => { files.push(bad(format!("{}#shared-half~server-y1.tinydiff", g.nodes[0].name))); files.push(bad(format!("{}#shared-half~server-y2.tinydiff", g.nodes[0].name))); }
+        "observe.diff_name_without_hash" => { files.push(bad(format!("{}.tinydiff", rng.pick(&["1.0-1.1", "orphan", "a~b"])))); (files, vec![]) }
+        "observe.split_version_shares_a_half_with_a_plain_version" => {
+            // a new version `K~server-zz` below the root, where K already is a lookup name of another version
+            let k = g.nodes.last().unwrap().keys[0].clone();
+            files.push(bad(format!("{}#{k}~server-zz.tinydiff", g.nodes[0].name)));
+            (files, vec![k, "server-zz".into()])
+        }
+        _ => {
+            files.push(bad(format!("{}#shared-half~server-y1.tinydiff", g.nodes[0].name))); files.push(bad(format!("{}#shared-half~server-y2.tinydiff", g.nodes[0].name)));
+            (files, vec!["shared-half".into(), "server-y1".into(), "server-y2".into()])
+        }
     }
-    let _ = k0;
-    files
 }
 
 fn malformed_case(rng: &mut Rng, rep: &mut Report, case: u64, bases: &Bases) {
@@ -324,13 +331,27 @@ fn malformed_case(rng: &mut Rng, rep: &mut Report, case: u64, bases: &Bases) {
     rep.eval();
     if which >= graphgen::MALFORMED_KINDS.len() {
         let kind = OBSERVED_ONLY[which - graphgen::MALFORMED_KINDS.len()];
-        let files = observed_only(&g, kind, rng);
-        let c = make_copy(bases, &format!("o{case}"), &files, "tmpfs", Order::Random, rng, &known, false);
-        match &c.run.resolve {
-            Err(Ans::Panic(site, msg)) => rep.violation(format!("C05 panic {site}"), json!({"files": files_json(&files), "read_dir_lists": c.listing, "call": "resolve", "panic": msg})),
-            Err(_) => rep.count(&format!("{kind}.rejected_by_resolve")),
-            Ok(()) => { rep.count(&format!("{kind}.accepted_by_resolve"));
-                for l in &c.run.lookups { if let Some(Ans::Panic(site, msg)) = &l.ans { rep.violation(format!("C05 panic {site}"), json!({"files": files_json(&files), "read_dir_lists": c.listing, "name": l.key, "panic": msg})); } } }
+        let (files, extra) = observed_only(&g, kind, rng);
+        let mut keys = known.clone(); keys.extend(extra);
+        let want = fsdir::wanted_listing(&files, Order::Random, rng);
+        let mut found: Vec<Vec<String>> = vec![];
+        for (i, rev) in [false, true].into_iter().enumerate() {
+            let perm: Vec<FileSpec> = if rev { want.iter().rev().map(|&j| files[j].clone()).collect() } else { want.iter().map(|&j| files[j].clone()).collect() };
+            // sandboxed: these shapes may contain a cycle (e.g. the colliding name is the root's)
+            let c = make_copy(bases, &format!("o{case}-{i}"), &perm, "tmpfs", Order::RootFirst, rng, &keys, true);
+            match &c.run.resolve {
+                Err(Ans::Panic(site, msg)) => rep.violation(format!("C05 panic {site}"), json!({"files": files_json(&perm), "read_dir_lists": c.listing, "call": "resolve", "panic": msg})),
+                Err(Ans::Lost(why)) => { rep.count(&format!("{kind}.no_report_from_sandboxed_process")); rep.note(format!("{kind}: sandboxed child process {why}")); }
+                Err(_) => rep.count(&format!("{kind}.rejected_by_resolve")),
+                Ok(()) => { rep.count(&format!("{kind}.accepted_by_resolve"));
+                    for l in &c.run.lookups { if let Some(Ans::Panic(site, msg)) = &l.ans { rep.violation(format!("C05 panic {site}"), json!({"files": files_json(&perm), "read_dir_lists": c.listing, "name": l.key, "panic": msg})); } }
+                    found.push(c.run.lookups.iter().map(|l| format!("{} -> {}", l.key, l.get.as_ref().map(|f| f.version.clone()).unwrap_or_else(|_| "<unknown>".into()))).collect()); }
+            }
+        }
+        if found.len() == 2 {
+            let differs = found[0] != found[1];
+            rep.count(&format!("{kind}.{}", if differs { "accepted_and_the_version_found_under_a_name_depends_on_the_listing_order" } else { "accepted_and_every_name_leads_to_the_same_version_in_both_listing_orders" }));
+            if differs && rep.seen_n("observed.colliding_names.example") < 3 { if let Some((a, b)) = found[0].iter().zip(&found[1]).find(|(a, b)| a != b) { rep.seen("observed.colliding_names.example", &format!("{kind}: one order {a}, reverse order {b}")); } }
         }
         return;
     }
@@ -434,17 +455,18 @@ fn canaries(seed: u64, bases: &Bases) -> String {
 fn main() {
     let args: Vec<String> = std::env::args().collect();
     if args.get(1).map(|s| s.as_str()) == Some("--child") && args.len() >= 3 { child_main(&args[2..]); }
-    let mut ctx = Ctx::from_args("C05", 40, 480);
+    let mut ctx = Ctx::from_args("C05", 120, 900);
     let replay = load_replay(&mut ctx);
     let bases = Bases::new(&ctx.out_dir);
     let probe = canaries(ctx.seed, &bases);
     let mut rep = Report::new();
     rep.max_samples = 3;
     let copies = ctx.tier.pick(4, 6);
-    let n = ctx.tier.pick(2_500, 40_000);
-    run_cases(&ctx, &replay, &mut rep, "graphs", n, |rng, rep, i| graph_case(rng, rep, i, &bases, copies));
-    let n = ctx.tier.pick(1_600, 24_000);
+    // the cheap workload first: every malformed kind is exercised even when a loaded machine later runs out of budget
+    let n = ctx.tier.pick(1_600, 32_000);
     run_cases(&ctx, &replay, &mut rep, "malformed", n, |rng, rep, i| malformed_case(rng, rep, i, &bases));
+    let n = ctx.tier.pick(2_000, 60_000);
+    run_cases(&ctx, &replay, &mut rep, "graphs", n, |rng, rep, i| graph_case(rng, rep, i, &bases, copies));
     bases.remove();
 
     let mut meta = Meta::new("exploration",
